@@ -20,3 +20,20 @@ Theorem C16_literal : forall isspace isword fuel s b i, s <> [] -> search isspac
   parse_inline isspace isword (S fuel) s b i = [(s, b, i)].
 Proof. exact parse_inline_literal. Qed.
 Print Assumptions C16_literal.
+
+(* '# ' lines become heading-styled paragraphs: k >= 1 '#' and a space make a heading line of level k whose text is the rest,
+   stripped; the paragraph created for a line holds one w:ins with the line's runs (formatted as above), a heading line gets
+   the heading style, any other line a copy of the current paragraph's properties and style *)
+Theorem C16_heading_line : forall k t, md_style (repeat c_hashN (S k) ++ 32%N :: t) = (strip_ws (32%N :: t), Some (S k)).
+Proof. exact md_style_heading. Qed.
+Print Assumptions C16_heading_line.
+Theorem C16_plain_line : forall c s, N.eqb c c_hashN = false -> md_style (c :: s) = (c :: s, None).
+Proof. exact md_style_plain. Qed.
+Print Assumptions C16_plain_line.
+Theorem C16_new_paragraph : forall e text anc sup st cur,
+  let '(_, p, iu) := new_para e text anc sup st cur in
+  p_nodes p = [snd (ins_inline e text anc sup)] /\ iu = node_uid (snd (ins_inline e text anc sup)) /\
+  p_style p = match st with Some l => PSHeading l | None => p_style cur end /\
+  p_ppr p = match st with Some _ => 0%N | None => p_ppr cur end.
+Proof. exact new_para_shape. Qed.
+Print Assumptions C16_new_paragraph.
